@@ -1279,7 +1279,7 @@ COMBOS = [('et', 'dummy'), ('lxml', 'doc'), ('et', 'doc'), ('lxml', 'dummy'), ('
 
 def correspond(run: Run) -> None:
     rng = run.rng
-    ntrees = int(__import__('os').environ.get('C01_NTREES') or run.scale(330, 2600))
+    ntrees = int(__import__('os').environ.get('C01_NTREES') or run.scale(270, 2400))
     per_tree = run.scale(10, 14)
     cases = corpus_cases()
     for t in range(ntrees):
@@ -1329,13 +1329,13 @@ def correspond(run: Run) -> None:
             sample.append(c)
     # a fixed pool of expressions evaluated with process-wide shared tokens on many different documents
     pool = [e for _, e in CORPUS_EXPR[:6]] + history_paths()[:4]
-    for c in sample[:run.scale(40, 300)]:
+    for c in sample[:run.scale(30, 250)]:
         if c.get('ns'):
             continue
         for e in pool:
             cases.append({'tree': c['tree'], 'pre': c['pre'], 'post': c['post'], 'expr': e, 'lib': c['lib'], 'mode': c['mode'],
                           'ctxseed': 7})
-    state_correspond(run, sample[:run.scale(60, 400)])
+    state_correspond(run, sample[:run.scale(45, 350)])
     history_correspond(run)
     chunk = 400
     for i in range(0, len(cases), chunk):
